@@ -52,6 +52,7 @@ def main(argv=None):
     ap.add_argument("--replay")
     ap.add_argument("--budget", type=float, default=None)
     ap.add_argument("--no-evidence", action="store_true")
+    ap.add_argument("--show-bystanders", action="store_true")
     a = ap.parse_args(argv)
     prop = a.prop.upper()
     tier = os.environ.get("VERIF_TIER") or a.tier or "quick"
@@ -213,6 +214,7 @@ def main(argv=None):
         "known_findings_seen": {k: v[1] for k, v in known_seen.items()},
         "violation_keys": vkeys,
         "bystanders": bystanders,
+        "bystander_samples": {k: v["detail"] for k, v in list(bystander_samples.items())[:20]},
         "inconclusive": inconclusive,
         "shards": nshards,
         "gfapy_file": gfapy_file,
@@ -245,6 +247,9 @@ def main(argv=None):
         print("KNOWN-FINDING: property=%s %s: %s (seen %d times)" % (prop, e["key"], e["what"], n))
     for k, n in sorted(bystanders.items()):
         print("NOTE bystander %s (x%d)" % (k, n))
+        if a.show_bystanders and k in bystander_samples:
+            print("   " + str(bystander_samples[k]["detail"]).replace("\n", "\n   "))
+            print("   case: " + json.dumps(bystander_samples[k]["case"], default=repr)[:3000])
     for key, n in sorted(unknown_keys.items()):
         print("VIOLATION property=%s replay=%s key=%s count=%d" % (prop, replay_paths[key], key, n))
         w = [v for v in violations if v["key"] == key][0]
@@ -252,8 +257,14 @@ def main(argv=None):
     if unknown_keys:
         return 1
     if inconclusive:
+        seen = set()
         for r in inconclusive[:10]:
-            print("INCONCLUSIVE property=%s reason=%s" % (prop, r.replace("\n", " | ")[:600]))
+            msg = r.replace("\n", " | ")
+            sig = msg.split(":", 1)[-1][-200:]
+            if sig in seen:
+                continue
+            seen.add(sig)
+            print("INCONCLUSIVE property=%s reason=%s" % (prop, msg[-700:]))
         return 2
     print("HELD on what was observed: property=%s" % prop)
     return 0
